@@ -32,6 +32,19 @@ def gen(rng, tier):
     for t in fixed:
         for fl in (0, STRICT):
             out.append((line(32, fl, ["Z" + hx(t)]), {"kind": "fixed", "text": t}))
+    # small scope, exhaustively: every document built from a table of scalars in a few container shapes and whitespace
+    # layouts (expected value through Python's own RFC 8259 reader, see simple_expect; both modes)
+    scal = [b'0', b'-0', b'7', b'-12', b'18446744073709551615', b'9223372036854775808', b'-9223372036854775808', b'true', b'false', b'null',
+            b'""', b'"a"', b'"\\n"', b'"\\u00e9"', b'"\\/"', b'"a b"', b'"\\ud83d\\ude00"', b'[]', b'{}']
+    docs_small = list(scal)
+    for a in scal:
+        docs_small += [b'[' + a + b']', b'{"k":' + a + b'}', b' [ ' + a + b' ]\n', b'{ "k" : ' + a + b' }']
+        for b2 in scal:
+            docs_small += [b'[' + a + b',' + b2 + b']', b'{"k":' + a + b',"j":' + b2 + b'}', b'{"k":' + a + b',"k":' + b2 + b'}',
+                           b'[[' + a + b'],{"k":' + b2 + b'}]', b'{"k":[' + a + b', ' + b2 + b']}']
+    for t in docs_small:
+        for fl in (0, STRICT):
+            out.append((line(32, fl, ["Z" + hx(t)]), {"kind": "small-scope", "text": t}))
     for i in range(n):
         big = rng.random() < 0.08
         nul = rng.random() < 0.03
